@@ -116,7 +116,8 @@ Definition absS (s : fqstf) : fqst :=
   mk_fqst (FR (f_min s)) (FR (f_max s)) (FR (f_e s)) (f_n s) (f_broke s) (f_stalled s) (f_refits s).
 (* finite fields, no ValueError so far, every stored expectile strictly inside (0,1) *)
 Definition okS (s : fqstf) : Prop :=
-  fin (f_min s) /\ fin (f_max s) /\ fin (f_e s) /\ f_raised s = false /\ forallb f_inside (f_trace s) = true.
+  fin (f_min s) /\ fin (f_max s) /\ fin (f_e s) /\ f_raised s = false /\ forallb f_inside (f_trace s) = true /\
+  (f_stalled s = true -> Gen_fq_stall_f (Gen_fq_new_expectile_f (f_min s) (f_max s)) (f_min s) (f_max s) = true).
 Definition goodS (s : fqstf) : Prop := okS s /\ fq_invf fmt64 (absS s).
 
 Lemma running_refines max_iter s : f_raised s = false -> fqf_running max_iter s = fq_running max_iter (absS s).
@@ -128,7 +129,7 @@ Proof. intros Fe He. destruct FR_one as [E1 F1]. destruct FR_zero as [E0 F0].
   { unfold absS, fqf_init, fq_init, Gen_fq_init_min_f, Gen_fq_init_max_f, Gen_fq_init_min, Gen_fq_init_max.
     cbn [f_min f_max f_e f_n f_broke f_stalled f_refits]. rewrite E0, E1. reflexivity. }
   split; [|exact A]. split.
-  - unfold okS, fqf_init, Gen_fq_init_min_f, Gen_fq_init_max_f. cbn [f_min f_max f_e f_raised f_trace forallb]. repeat split; assumption.
+  - unfold okS, fqf_init, Gen_fq_init_min_f, Gen_fq_init_max_f. cbn [f_min f_max f_e f_raised f_trace forallb f_stalled]. repeat split; try assumption. discriminate.
   - rewrite A. destruct C64 as (C1 & C2 & C3 & C4 & C5 & C6). apply fq_init_inv; try assumption. apply FR_fmt. Qed.
 
 Lemma invf_step quantile tol r max_iter s : fq_invf fmt64 s -> fq_running max_iter s = true ->
@@ -141,7 +142,7 @@ Lemma body_refines quantile tol r max_iter s :
   goodS s -> fqf_running max_iter s = true ->
   goodS (fqf_body quantile tol r s) /\
   absS (fqf_body quantile tol r s) = fq_body rnd64 (FR quantile) (FR tol) (FR r) (absS s).
-Proof. intros Fq Ft Fr Hr Hq [(Fn & Fx & Fe & Hraise & Htr) Hinv] Hrun.
+Proof. intros Fq Ft Fr Hr Hq [(Fn & Fx & Fe & Hraise & Htr & _) Hinv] Hrun.
   rewrite (running_refines _ _ Hraise) in Hrun.
   assert (Hinv' := invf_step (FR quantile) (FR tol) (FR r) max_iter (absS s) Hinv Hrun).
   destruct (running_flags _ _ Hrun) as (_ & Hst & _).
@@ -149,31 +150,33 @@ Proof. intros Fq Ft Fr Hr Hq [(Fn & Fx & Fe & Hraise & Htr) Hinv] Hrun.
   assert (A : absS (fqf_body quantile tol r s) = fq_body rnd64 (FR quantile) (FR tol) (FR r) (absS s) /\ okS (fqf_body quantile tol r s)).
   { unfold fqf_body, fq_body. rewrite (within_refines r quantile tol Fr Fq Ft Hr Hq).
     destruct (Gen_fq_within_tol rnd64 (FR r) (FR quantile) (FR tol)).
-    { split; [reflexivity|]. unfold okS. cbn [f_min f_max f_e f_raised f_trace fst snd]. repeat split; assumption. }
+    { split; [reflexivity|]. unfold okS. cbn [f_min f_max f_e f_raised f_trace f_stalled fst snd]. repeat split; try assumption. discriminate. }
     unfold Gen_fq_bracket_f, Gen_fq_bracket. rewrite (branch_refines r quantile Fr Fq). cbn [absS q_min q_max q_e].
     destruct (Gen_fq_branch_test (FR r) (FR quantile)); cbn [fst snd].
     - destruct (midpoint_refines (f_e s) (f_max s) Fe Fx ltac:(lra) ltac:(lra) ltac:(lra)) as [Em Fm].
       rewrite (stall_refines _ _ _ Fm Fe Fx), Em.
       destruct (Gen_fq_stall (Gen_fq_new_expectile rnd64 (FR (f_e s)) (FR (f_max s))) (FR (f_e s)) (FR (f_max s))) eqn:St.
-      + split; [reflexivity|]. unfold okS. cbn [f_min f_max f_e f_raised f_trace fst snd]. repeat split; assumption.
+      + split; [reflexivity|]. unfold okS. cbn [f_min f_max f_e f_raised f_trace f_stalled fst snd]. repeat split; try assumption.
+        intros _. rewrite (stall_refines _ _ _ Fm Fe Fx), Em. exact St.
       + apply stall_false in St. destruct C64 as (C1 & C2 & C3 & C4 & C5 & C6).
         destruct (midpoint_in_bracket rnd64 fmt64 C1 C2 C4 (FR (f_e s)) (FR (f_max s)) (FR_fmt _) (FR_fmt _) ltac:(lra)) as [L U].
         assert (In : Gen_expectile_out_of_range (FR (Gen_fq_new_expectile_f (f_e s) (f_max s))) = false).
         { rewrite Em. unfold Gen_expectile_out_of_range. apply orb_false_iff; split; apply Rleb_false; lra. }
         rewrite (range_refines _ Fm), In. split; [unfold absS; cbn [f_min f_max f_e f_n f_broke f_stalled f_refits fst snd q_n q_refits]; rewrite Em; reflexivity|].
-        unfold okS. cbn [f_min f_max f_e f_raised f_trace forallb]. repeat split; try assumption.
+        unfold okS. cbn [f_min f_max f_e f_raised f_trace f_stalled forallb]. repeat split; try assumption; try discriminate.
         rewrite Htr, andb_true_r, (inside_refines _ Fm), Em.
         rewrite (proj2 (Rltb_true _ _)), (proj2 (Rltb_true _ _)) by lra. reflexivity.
     - destruct (midpoint_refines (f_min s) (f_e s) Fn Fe ltac:(lra) ltac:(lra) ltac:(lra)) as [Em Fm].
       rewrite (stall_refines _ _ _ Fm Fn Fe), Em.
       destruct (Gen_fq_stall (Gen_fq_new_expectile rnd64 (FR (f_min s)) (FR (f_e s))) (FR (f_min s)) (FR (f_e s))) eqn:St.
-      + split; [reflexivity|]. unfold okS. cbn [f_min f_max f_e f_raised f_trace fst snd]. repeat split; assumption.
+      + split; [reflexivity|]. unfold okS. cbn [f_min f_max f_e f_raised f_trace f_stalled fst snd]. repeat split; try assumption.
+        intros _. rewrite (stall_refines _ _ _ Fm Fn Fe), Em. exact St.
       + apply stall_false in St. destruct C64 as (C1 & C2 & C3 & C4 & C5 & C6).
         destruct (midpoint_in_bracket rnd64 fmt64 C1 C2 C4 (FR (f_min s)) (FR (f_e s)) (FR_fmt _) (FR_fmt _) ltac:(lra)) as [L U].
         assert (In : Gen_expectile_out_of_range (FR (Gen_fq_new_expectile_f (f_min s) (f_e s))) = false).
         { rewrite Em. unfold Gen_expectile_out_of_range. apply orb_false_iff; split; apply Rleb_false; lra. }
         rewrite (range_refines _ Fm), In. split; [unfold absS; cbn [f_min f_max f_e f_n f_broke f_stalled f_refits fst snd q_n q_refits]; rewrite Em; reflexivity|].
-        unfold okS. cbn [f_min f_max f_e f_raised f_trace forallb]. repeat split; try assumption.
+        unfold okS. cbn [f_min f_max f_e f_raised f_trace f_stalled forallb]. repeat split; try assumption; try discriminate.
         rewrite Htr, andb_true_r, (inside_refines _ Fm), Em.
         rewrite (proj2 (Rltb_true _ _)), (proj2 (Rltb_true _ _)) by lra. reflexivity. }
   destruct A as [A1 A2]. split; [split; [exact A2|rewrite A1; exact Hinv']|exact A1]. Qed.
@@ -190,7 +193,7 @@ Lemma loop_refines : forall fuel s, goodS s ->
   goodS (fqf_loop fuel quantile tol max_iter ratio s) /\
   absS (fqf_loop fuel quantile tol max_iter ratio s) = fq_loop rnd64 fuel (FR quantile) (FR tol) max_iter ratioR (absS s).
 Proof. induction fuel as [|f IH]; intros s Hs; cbn [fqf_loop fq_loop]; [split; [exact Hs|reflexivity]|].
-  assert (Hr : f_raised s = false) by (destruct Hs as [(_ & _ & _ & H & _) _]; exact H).
+  assert (Hr : f_raised s = false) by (destruct Hs as [(_ & _ & _ & H & _ & _) _]; exact H).
   rewrite <- (running_refines max_iter s Hr).
   destruct (fqf_running max_iter s) eqn:E; [|split; [exact Hs|reflexivity]].
   destruct (ratio_ok (f_refits s)) as [Fr Rr].
@@ -216,30 +219,29 @@ Proof. intros Fe He. destruct (init_refines e0 Fe He) as [G0 A0].
   assert (W : forall k, Gen_fq_within_tol_f (ratio k) quantile tol = Gen_fq_within_tol rnd64 (ratioR k) (FR quantile) (FR tol)).
   { intros k. destruct (ratio_ok k) as [Fr Rr]. apply within_refines; assumption. }
   split.
-  - intros fuel s. destruct (loop_refines fuel _ G0) as [[(Fn & Fx & Fe' & Hr & Ht) Hi] A]. fold s in Fn, Fx, Fe', Hr, Ht, Hi, A.
+  - intros fuel s. destruct (loop_refines fuel _ G0) as [[(Fn & Fx & Fe' & Hr & Ht & Hsf) Hi] A]. fold s in Fn, Fx, Fe', Hr, Ht, Hsf, Hi, A.
     rewrite A0 in A. destruct Hi as [(H0 & H1 & He' & Hin) _]. cbn [absS q_min q_max q_e q_stalled] in H0, H1, He', Hin.
     repeat split; try assumption.
     + rewrite (inside_refines _ Fe'). rewrite (proj2 (Rltb_true _ _)), (proj2 (Rltb_true _ _)) by lra. reflexivity.
     + rewrite (f_ltb _ _ Fn Fe'). apply Rltb_true. apply (Hin H).
     + rewrite (f_ltb _ _ Fe' Fx). apply Rltb_true. apply (Hin H).
-  - intros s. destruct (loop_refines (Z.to_nat max_iter) _ G0) as [[(Fn & Fx & Fe' & Hr & Ht) Hi] A]. fold s in Fn, Fx, Fe', Hr, Ht, Hi, A.
+  - intros s. destruct (loop_refines (Z.to_nat max_iter) _ G0) as [[(Fn & Fx & Fe' & Hr & Ht & Hsf) Hi] A]. fold s in Fn, Fx, Fe', Hr, Ht, Hsf, Hi, A.
     rewrite A0 in A.
     pose proof (fq_exit rnd64 (FR quantile) (FR tol) max_iter ratioR (FR e0)) as X. cbv zeta in X. rewrite <- A in X.
     destruct X as (X1 & X2 & X3 & X4 & X5). cbn [absS q_refits q_n q_broke q_stalled q_min q_max] in X2, X3, X4, X5.
     rewrite <- (running_refines max_iter s Hr) in X1.
     repeat split; try assumption.
     + intros j Hj. rewrite W. apply X4. exact Hj.
-    + destruct (midpoint_trich_dummy := I).
-      destruct X5 as [(B1 & B2 & B3)|[(B1 & B2 & B3 & B4)|(B1 & B2 & B3)]].
+    + destruct X5 as [(B1 & B2 & B3)|[(B1 & B2 & B3 & B4)|(B1 & B2 & B3)]].
       * left. rewrite W. repeat split; assumption.
-      * right. left. rewrite W. repeat split; try assumption.
-        assert (Hord : 0 <= FR (f_min s) /\ FR (f_min s) <= FR (f_max s) /\ FR (f_max s) <= 1).
-        { destruct Hi as [(H0 & H1 & He' & Hin) (Fmn & Fmx & _)]. cbn [absS q_min q_max q_e] in *.
-          destruct C64 as (C1 & C2 & C3 & C4 & C5 & C6). apply stall_true in B4.
-          destruct (Rle_or_lt (FR (f_min s)) (FR (f_max s))) as [L|L]; [repeat split; assumption|].
-          exfalso. (* a stalled state still has min <= max: both are ends of the last bracket *) admit. }
-        destruct Hord as (O1 & O2 & O3).
-        destruct (midpoint_refines (f_min s) (f_max s) Fn Fx O1 O2 O3) as [Em Fm].
-        rewrite (stall_refines _ _ _ Fm Fn Fx), Em. exact B4.
+      * right. left. rewrite W. repeat split; try assumption. apply Hsf. exact B2.
       * right. right. repeat split; assumption. Qed.
 End Loop.
+
+(* the statement asked for, in one piece: value, finiteness, and "an end of the bracket or strictly inside it" *)
+Theorem midpoint_refines_full mn mx : fin mn -> fin mx -> 0 <= FR mn -> FR mn <= FR mx -> FR mx <= 1 ->
+  FR (Gen_fq_new_expectile_f mn mx) = rnd64 (rnd64 (FR mx + FR mn) / 2) /\ fin (Gen_fq_new_expectile_f mn mx) /\
+  let e' := FR (Gen_fq_new_expectile_f mn mx) in (e' = FR mn \/ e' = FR mx) \/ (FR mn < e' < FR mx).
+Proof. intros Fn Fx H0 H1 H2. destruct (midpoint_refines mn mx Fn Fx H0 H1 H2) as [E F]. split; [exact E|split; [exact F|]].
+  cbv zeta. rewrite E. destruct C64 as (C1 & C2 & C3 & C4 & C5 & C6).
+  apply (midpoint_trichotomy rnd64 fmt64 C1 C2 C4 (FR mn) (FR mx) (FR_fmt _) (FR_fmt _) H1). Qed.
